@@ -21,6 +21,26 @@ def make_cases(tier, seed):
         elif style == 3:
             kw = dict(big=True, nops=r.choice([30, 120]))
         cases.append(gen.gen_history(r, 'c%05d' % i, **kw))
+    # argument values outside what a file can express exactly - the document must stay well formed all the same:
+    #  (x) record times whose tick count does not fit 63 bits (far future at a fine tick rate, time_t(-1)),
+    #  (z) parameter sets with ticks_per_second = 0: timed records are refused when they are buffered, nothing reaches the output half-written
+    nx = 160 if tier == 'quick' else 1500
+    for i in range(nx):
+        r = gen.seeded(seed, 'C02x', i)
+        c = gen.gen_history(r, 'x%05d' % i, nops=r.choice([6, 20, 50]), weights=dict(rotate=10, wb=10, dblock=8))
+        for op in c['ops']:
+            recs = [op['r']] if op['op'] in ('qr', 'mm') else [it['r'] for it in op.get('items', []) if it['k'] in ('qr', 'mm', 'rawqr', 'rawmm')]
+            for rec in recs:
+                if 'ts' in rec and r.random() < 0.6:
+                    rec['ts'] = [min(2 ** 64 - 1, r.choice([2 ** 34, 2 ** 44, 2 ** 54, 2 ** 63, 2 ** 64 - 6, 9223372036, 18446744073, 2 ** 63 // 10 ** 6]) + r.randrange(0, 5)), rec['ts'][1]]
+        cases.append(c)
+    for i in range(nx):
+        r = gen.seeded(seed, 'C02z', i)
+        pre = gen.gen_preamble(r)
+        for k, bp in enumerate(pre['bps']):
+            if k == 0 or r.random() < 0.5:
+                bp['tps'] = 0
+        cases.append(gen.gen_history(r, 'z%05d' % i, preamble=pre, nops=r.choice([6, 20, 50]), weights=dict(rotate=10, wb=10, dblock=8, setactive=10)))
     return cases
 
 
@@ -48,6 +68,8 @@ def run(tier, seed):
         obs = dict(er.obs)
         obs['present_but_empty_structures_submitted'] = empties
         obs['documents_parsed_strictly'] = sum(len(pc['docs']) for pc in er.per_case if pc)
+        obs['histories_with_unrepresentable_record_times'] = sum(1 for c in cases if c['id'].startswith('x'))
+        obs['timed_records_refused_at_tick_rate_0'] = sum(1 for pc in er.per_case if pc for e in pc['exp'] if e.get('throws') and 'stored' in e)
         nt = er.nontrivial(lambda pc: len(pc['docs']) >= 1)
         cov = dict(evaluations=len(cases), distinct_nontrivial=nt,
                    rule='seeded exporter API histories (buffer_*/write_block/dblock/rotate/addbp/setactive/destroy, all compressions, name+fd); '
